@@ -62,7 +62,7 @@ class Ctx:
     def violate(self, prop: str, oracle: str, detail: str, text: str = "") -> None:
         sig = f"{prop}/{oracle}" + (f":{detail}" if detail else "")
         self.violations.append({"prop": prop, "oracle": oracle, "sig": sig,
-                                "text": (text or detail)[:2000], "t": self.t()})
+                                "text": (text or detail)[:4000], "t": self.t()})
         self.ev("VIOLATION", sig)
 
     def tmpdir(self) -> str:
